@@ -61,7 +61,12 @@ def sig_peg_pass(run, issue, ev):
     return False
 
 
+def sig_unconv_legacy(run, issue, ev):
+    return (ev or {}).get("h", 0) < sched_of(run).get("V20", 0) and "unconvertible" in issue[2]
+
+
 SIGS = {
+    "C17-unconvertible-pending-forever-legacy": sig_unconv_legacy,
     "C16-peg-pass-takes-all-txs": sig_peg_pass, "C04-peg-pass-takes-all-txs": sig_peg_pass, "C03-peg-pass-takes-all-txs": sig_peg_pass,
     "C11-band-error-skips-block": sig_band_skip, "C13-band-error-skips-block": sig_band_skip,
     "C04-band-error-skips-block": sig_band_skip, "C12-band-error-skips-block": sig_band_skip,
